@@ -166,7 +166,7 @@ def own_id_for(i, k):
     return ("own-%d-%d-\u00e9" % (i, k)).encode() if k % 40 == 23 else f"own-{i}-{k}"
 
 
-def judge_history(ctx, reqs, n_own_expected, own_expected, case, tids=None, adapter_ids=None):
+def judge_history(ctx, reqs, n_own_expected, own_expected, case, tids=None, adapter_ids=None, n_lost=0):
     """the sequential counter model over a recorded history"""
     ids = [(tid, request_id_of(r)) for tid, r in reqs]
     ctx.count("requests_observed", len(ids))
@@ -190,7 +190,10 @@ def judge_history(ctx, reqs, n_own_expected, own_expected, case, tids=None, adap
     except (ValueError, IndexError):
         ctx.violation("unparsable-request-id", {"sample": gen_ids[:3]}, case)
         return None
-    if sorted(seqs) != list(range(len(seqs))):
+    if n_lost and len(set(seqs)) == len(seqs) and min(seqs, default=0) >= 0 and max(seqs, default=0) < len(seqs) + n_lost:
+        # (calls that were refused after a number had been taken for them: up to that many numbers may be missing)
+        pass
+    elif sorted(seqs) != list(range(len(seqs))):
         srt = sorted(seqs)
         rep = sorted({s for s in seqs if seqs.count(s) > 1})[:5]
         gaps = [i for i in range(len(seqs)) if i not in set(seqs)][:5]
@@ -468,6 +471,7 @@ def stress_round(ctx, seed, interleavings, case_no):
     described = []
     refused = []
     dropped = []
+    lost = []
     http_logger = logging.getLogger(conn_http.__name__)
     old_level = http_logger.level
     if case_no % 4 == 3:
@@ -479,7 +483,9 @@ def stress_round(ctx, seed, interleavings, case_no):
 
     def worker(i):
         c = conns[i % len(conns)]
-        reused = {'X-Worker': str(i)}     # a headers dict the caller keeps and passes again
+        # a headers dict the caller keeps and passes again (it names the business operation the requests belong to:
+        # many requests, also of other threads, carry the same value there)
+        reused = {'X-Worker': str(i), 'X-Correlation-ID': "op-%d" % (i % 2), 'X-Trace-ID': "tr-%d" % seed}
         wrng = random.Random(seed * 31 + i)
         try:
             start.wait()
@@ -521,6 +527,15 @@ def stress_round(ctx, seed, interleavings, case_no):
                         verb("/fail" if k % 20 == 9 else "/unreachable", **kw)
                     except urllib.error.URLError:     # (HTTPError is one)
                         pass
+                elif k % 20 == 14 and not uses_id_adapter(i):
+                    # a call whose body cannot be serialised (a set, an object of the application): the caller gets the
+                    # TypeError, nothing is sent. Whether the number it had been given is lost is left open - but no
+                    # request that IS sent may carry a number a second time
+                    try:
+                        verb("/p", data=({1, 2} if k % 40 == 14 else {'when': object()}))
+                        errors.append("a body that cannot be serialised was accepted")
+                    except TypeError:
+                        lost.append(1)
                 elif k % 10 == 4 and k % 20 == 4 and not uses_id_adapter(i):
                     # a call that is refused before anything is sent (the parameters cannot be url-encoded): it is no
                     # request and takes no number
@@ -574,7 +589,8 @@ def stress_round(ctx, seed, interleavings, case_no):
                       {"requests_through_the_id_supplying_connections": through_id_adapters,
                        "ids_the_adapter_was_asked_for": len(op.adapter_ids)}, case)
         return
-    order = judge_history(ctx, op.reqs, None, own_expected, case, adapter_ids=op.adapter_ids)
+    ctx.count("calls_refused_after_their_number_was_taken", len(lost))
+    order = judge_history(ctx, op.reqs, None, own_expected, case, adapter_ids=op.adapter_ids, n_lost=len(lost))
     if order is not None:
         tid_index = {}
         sig = sig_of([tid_index.setdefault(t, len(tid_index)) for t in order])
